@@ -128,10 +128,18 @@ func argsOf(u *fasthttp.URI, err error) string {
 
 func cp(b []byte) []byte { return append([]byte(nil), b...) }
 
-func run(d desc) hlib.Case {
-	c := hlib.Case{Kind: "uri", Size: len(d.URI)}
+func run(d desc) (c hlib.Case) {
+	stage := 0
+	defer func() {
+		if e := recover(); e != nil {
+			c = hlib.Case{Kind: "uri-panic", Size: len(d.URI), Sig: fmt.Sprintf("panic-%d", stage),
+				Coq: hlib.App("CPanic", hlib.Hex(d.Host), hlib.Hex(d.URI), hlib.N(uint64(stage)))}
+		}
+	}()
+	c = hlib.Case{Kind: "uri", Size: len(d.URI)}
 	var u fasthttp.URI
 	err := u.Parse(cp(d.Host), cp(d.URI))
+	stage = 1
 	nu, nerr := url.Parse(string(d.URI))
 	nuF := []string{hlib.Bool(false), hlib.Hex(nil), hlib.Hex(nil), hlib.Hex(nil)}
 	if nerr == nil {
